@@ -14,17 +14,27 @@ MANIFEST_TEXT = ("Lean 4 theorems, for every rank and all extents (0 and 1 inclu
                  "between extents types preserves rank, extents, the offset of EVERY index tuple and the required span; the "
                  "static/dynamic extent index table and all extents constructors (incl. value-initialisation) are correct; "
                  "mdspan/mdarray access stays inside storage of required_span_size elements and hits exactly the designated "
-                 "element for EVERY unique mapping; arrays built from views copy every element and own exactly the required span; "
-                 "converted views read the same elements; span sub-views denote the designated elements for ALL histories of "
-                 "first/last/subspan.  The model is run against the real templates (ranks 0..4, extents 0..4 (random part up to "
-                 "8), 32 static/dynamic patterns, index types int/size_t/short, all index tuples, every public constructor of "
-                 "extents/mappings/mdspan/mdarray/span, a custom accessor policy and data handle) with an independent "
-                 "enumeration-order oracle, pointer-identity and accessor-log checks and ASan.")
+                 "element for EVERY unique mapping and every accessor policy access(p,i)=p[pos i] with pos injective on the span; "
+                 "arrays built from views with ANY accessor policy (an arbitrary function of the offset) hold at every index what "
+                 "the view yields there and own exactly the required span; size() of an array counts the index tuples whatever "
+                 "container it owns (re-used larger buffers, std::array<T,N> with N above the product), writes never touch the "
+                 "surplus; the stride()/product()/size()/required_span_size() loops never exceed their result for non-empty "
+                 "index spaces and stride(i)*extent(i) <= required_span_size (no overflow in ANY index type whose range holds "
+                 "the span); converted views read the same elements; span sub-views denote the designated elements for ALL "
+                 "histories of first/last/subspan.  The model is run against the real templates (ranks 0..4, extents 0..4 (random "
+                 "part up to 8), 35 static/dynamic patterns, index types int/size_t/short/long, all index tuples, every public "
+                 "constructor of extents/mappings/mdspan/mdarray/span, containers with 0..6 surplus elements, a recording custom "
+                 "accessor with a non-pointer data handle and an interleaved accessor access(p,i)=p[2i+1] for views and for "
+                 "arrays built from views; plus huge index spaces up to the limit of each index type (2^15-1, 2^31-1, 2^61) "
+                 "observed at sampled index tuples incl. conversions to layout_stride/dextents and back) with an independent "
+                 "enumeration-order / digit-decoding / 128-bit oracle, pointer-identity and accessor-log checks and ASan/UBSan.")
 MANIFEST_NOTE = ("Trusted: Lean kernel (+propext/Classical.choice/Quot.sound), tr_c14.py, the hand-written loop skeletons of "
                  "Model/C14.lean (fidelity checked by the differential run only), the harness oracle, g++/ASan/UBSan. "
-                 "Index arithmetic is modelled over Nat: the theorems bound every intermediate value by required_span_size "
-                 "for non-empty index spaces; wrap-around of index_type itself (huge extents, or an empty index space whose "
-                 "other extents overflow) is outside the model (the run uses extents <= 8).  is_exhaustive() of strided "
+                 "Index arithmetic is modelled over Nat: the theorems bound every intermediate value of the offset, stride, "
+                 "product, size and span loops by required_span_size for non-empty index spaces; that the C++ code carries "
+                 "these loops out in index_type (and not in a narrower type) is established by the bigmap run only (extents up "
+                 "to the limit of int/short/size_t/long, required span <= the type's maximum resp. 2^61); an empty index "
+                 "space whose other extents multiply beyond index_type is outside.  is_exhaustive() of strided "
                  "mappings is corresponded and checked by the oracle but not the subject of a theorem.  Containers other "
                  "than std::vector/std::array, the C++23 multidimensional operator[] and the deduction guides of "
                  "mdspan/mdarray are not exercised.")
@@ -40,17 +50,22 @@ HARNESS = dict(
 RULE = ("cases: (a) enumeration of every instantiated extents type (32 static/dynamic patterns, ranks 0..4, index types "
         "int/size_t/short) x layout left/right/stride x all dynamic extents in 0..3 (quick) / 0..4 (thorough), each case "
         "covering ALL index tuples of the index space; (b) random mix of map/conv/mdspan/mdarray/span operations (all constructor forms of "
-        "extents, mappings, views, arrays and spans; custom accessor) with "
-        "extents biased to 0 and 1 and strides that are permuted/padded nestings, canonical, or arbitrary.  distinct = "
+        "extents, mappings, views, arrays and spans; recording and interleaved custom accessors, also as source of mdarray(mdspan); "
+        "half of the container-taking mdarray constructors get a container with 1..6 surplus elements, std::array containers "
+        "with 2 surplus elements) with "
+        "extents biased to 0 and 1 and strides that are permuted/padded nestings, canonical, or arbitrary; (c) bigmap (9 %): "
+        "18 extents types over int/short/size_t/long with extents drawn log-uniformly up to the limit of the index type "
+        "(boundary bias: span exactly the maximum), all three layouts (strided: canonical or permuted/padded nestings with huge "
+        "strides), 3..20 sampled index tuples (corners, interior, unit-step neighbours).  distinct = "
         "distinct op lines; non-trivial = accepted by the executor (precondition-violating lines are answered bad-op by "
         "both sides and counted trivial)")
 ASSUMPTIONS = [
     "the loop skeletons in lean/DuneVerif/Model/C14.lean are hand-written; their fidelity to the C++ templates rests on this differential run",
     "the loop pieces (initial value, bounds, step) of operator(), stride(i), product(), layout_stride size() and mdspan/mdarray size() are regenerated from the sources by tools/translators/tr_c14.py",
-    "index arithmetic over Nat: no overflow of index_type (extents <= 8, strides <= 1000 in the run)",
+    "index arithmetic over Nat: required_span_size (with extents 0 counted as 1) fits index_type (map/conv/mdspan/mdarray: extents <= 8, strides <= 1000; bigmap: up to 32767 / 2^31-1 / 2^61)",
     "the tree under test contains fixes/C14_from_stride.patch, C14_mdspan_convert.patch and C14_mdarray_alloc.patch (the harness instantiates the constructors they repair); without fixes/C14_stride_rank0.patch the rank-0 strided cases are reported as violations",
 ]
-TRUSTED = ["g++/libstdc++, ASan/UBSan", "translator tr_c14.py", "harness/cxx_c14.cc (oracle: enumeration order, std::set, pointer identity, accessor log) + Driver/C14.lean parsing/printing"]
+TRUSTED = ["g++/libstdc++, ASan/UBSan", "translator tr_c14.py", "harness/cxx_c14.cc (oracle: enumeration order, std::set, pointer identity, accessor log; bigmap: digit decoding and __int128 sums) + Driver/C14.lean parsing/printing"]
 
 
 def batches(tier, seed):
